@@ -78,6 +78,10 @@ VerdictCentring(r) ==
     ELSE IF \E a \in 1..Len(r.patoms) : ~\E b \in 1..Len(r.basis) : Congruent(r.patoms[a], r.basis[b], r.dd) THEN "primitive_atom_not_in_the_crystal"
     ELSE IF \E a \in 1..Len(r.patoms) : \E b \in (a+1)..Len(r.patoms) : CongruentNew(Scale(6, X(r.patoms[a])), Scale(6, X(r.patoms[b])), r.pcell6, r.dd) THEN "two_primitive_atoms_coincide"
     ELSE IF Abs(Det3(r.pcell6)) * r.npts # 216 THEN "primitive_cell_volume_wrong"
+    ELSE IF ~r.pproper THEN "returned_transform_is_not_a_proper_rotation"
+    ELSE IF ~r.plammps THEN "converted_cell_not_lammps_compatible"
+    ELSE IF \E a \in 1..Len(r.patoms) : ~InNewCell(Scale(6, X(r.patoms[a])), r.pcell6, r.porg6, r.dd) THEN "primitive_atom_outside_its_cell"
+    ELSE IF ~r.binside THEN "round_trip_atom_outside_its_cell"
     ELSE IF scb # "ok" THEN "round_trip_" \o scb
     ELSE IF r.bgram # r.gram THEN "round_trip_cell_differs"
     ELSE "ok"
